@@ -171,7 +171,12 @@ fn c08(out: &mut Out, decl: &Value, exhaustive: bool, seed: u64) {
             let name = c[0].as_str().unwrap();
             json!({"name": name, "decl": jw(c[1].as_u64().unwrap() as u32), "value": jo(mask_const_value(kind, name))})
         }).collect()).unwrap_or_default();
-        out.ev(json!({"ev": "mask", "kind": kind, "exhaustive": exhaustive, "probes": if n > (1 << 31) { json!("2^32") } else { json!(n) },
+        // the printed name of every declared bit (and of the empty mask): "declared ... names agree with the Khronos grammar"
+        let all = mask_all(kind);
+        let disas: Vec<Value> = (0..32u32).map(|b| 1u32 << b).filter(|bit| all & bit != 0)
+            .map(|bit| json!({"bit": jw(bit), "text": catch(|| mask_disas(kind, bit).unwrap_or_default()).unwrap_or_else(|_| "<panic>".to_string())})).collect();
+        let disas_zero = catch(|| mask_disas(kind, 0).unwrap_or_default()).unwrap_or_else(|_| "<panic>".to_string());
+        out.ev(json!({"ev": "mask", "kind": kind, "exhaustive": exhaustive, "disas": disas, "disas_zero": disas_zero, "probes": if n > (1 << 31) { json!("2^32") } else { json!(n) },
             "all": jw(mask_all(kind)), "accepted_or": jw(or), "bad_accept": jo(ba), "bad_reject": jo(br), "bad_back": jo(bb), "consts": consts}));
     }
 }
@@ -285,20 +290,21 @@ fn c17(out: &mut Out, decl: &Value, seed: u64) {
     let id_payloads: [u32; 5] = [0x00ab_cdef, 0, 1, u32::MAX, 0x8000_0000];
     for (variant, round) in OPERAND_VARIANTS.iter().flat_map(|v| (0..5usize).map(move |r| (v, r))) {
         let is_id = matches!(*variant, "IdRef" | "IdScope" | "IdMemorySemantics");
-        if round > 0 && !is_id { continue; }
-        // a representative payload (ids: boundary payloads too)
+        // payloads: boundary words for the plain-word variants, strings with NULs / blanks / non-ASCII at either end,
+        // full / empty / lowest-bit masks, several enumerants
+        let strs = ["str\u{e9}", "", "main\0", "\0", " a\0b \n"];
         let (w, s): (Vec<u32>, &str) = match *variant {
             _ if is_id => (vec![id_payloads[round]], ""),
-            "LiteralString" => (vec![], "str\u{e9}"),
-            "LiteralBit64" => (vec![0x1111_2222, 0x3333_4444], ""),
-            "LiteralSpecConstantOpInteger" => (vec![128], ""),
-            v if MASK_NAMES.contains(&v) => (vec![mask_all(v) & 0xffff_ffff], ""),
+            "LiteralString" => (vec![], strs[round]),
+            "LiteralBit64" => (vec![[0x1111_2222u32, 0, u32::MAX, 0, 0x8000_0000][round], [0x3333_4444u32, 0, u32::MAX, 1, 0][round]], ""),
+            "LiteralSpecConstantOpInteger" => (vec![[128u32, 0, 1, 124, 79][round]], ""),
+            v if MASK_NAMES.contains(&v) => (vec![match round { 0 => mask_all(v), 1 => 0, 2 => mask_all(v) & mask_all(v).wrapping_neg(), 3 => mask_all(v) & 0x5555_5555, _ => mask_all(v) & 0xaaaa_aaaa }], ""),
             v if ENUM_NAMES.contains(&v) => {
                 let mut x = 0; for n in 0..70000u32 { if enum_from_u32(v, n).is_some() { x = n; if rng.chance(1, 3) { break; } } }
                 if enum_from_u32(v, x).is_none() { x = 0x7fff_ffff; }
                 (vec![x], "")
             }
-            _ => (vec![0x00ab_cdef], ""),
+            _ => (vec![id_payloads[round]], ""),
         };
         let op = match operand_make(variant, &w, Some(s)) { Some(o) => o, None => { out.ev(json!({"ev": "operand", "variant": variant, "st": "unmakeable"})); continue; } };
         let r = catch(|| {
